@@ -4,7 +4,10 @@ CONF["DEFAULT_API"]  ->  lean/AgVerif/Gen/ApiLevels.lean.
 Regenerated from the working tree on every run:
   permLevels   the integers load_permissions derives from os.listdir with its own regex
                (^permissions_\\d+\\.json$, then int(x[:-5].split('_')[1])); the regex is read from the
-               source (AST) so a changed regex changes the list
+               source (AST) so a changed regex changes the list.  It is read semantically (see
+               _regex_from_source): re.match(P, x) / re.compile(P).match(x) / a module-level compiled
+               constant, P a literal or module-level string constant, in load_permissions or in a
+               same-module helper it calls (one level); anything else raises
   permFiles    the n >= 0 for which os.path.isfile("permissions_{}.json".format(n)) holds (the exact
                name the code opens).  permissions_04.json gives level 4 but no file 4: then
                load_permissions(4) recurses for ever, which is what `gen_canonical` rules out.
@@ -24,17 +27,81 @@ import re
 REL = os.path.join("androguard", "core", "api_specific_resources")
 
 
-def _regex_from_source(src: str) -> str:
-    """the pattern passed to re.match inside load_permissions"""
+def _module_funcs(tree):
+    return {n.name: n for n in tree.body if isinstance(n, ast.FunctionDef)}
+
+
+def _closure(tree, fn):
+    """fn plus the same-module functions it calls by plain name (one level of inlining)"""
+    funcs = _module_funcs(tree)
+    out = [fn]
+    for n in ast.walk(fn):
+        if isinstance(n, ast.Call) and isinstance(n.func, ast.Name) and n.func.id in funcs and n.func.id != fn.name:
+            if funcs[n.func.id] not in out:
+                out.append(funcs[n.func.id])
+    return out
+
+
+def _const_str(tree, expr):
+    """a string literal, or a module-level name bound once to a string literal"""
+    if isinstance(expr, ast.Constant) and isinstance(expr.value, str):
+        return expr.value
+    if isinstance(expr, ast.Name):
+        binds = [n.value for n in tree.body if isinstance(n, ast.Assign)
+                 and any(isinstance(t, ast.Name) and t.id == expr.id for t in n.targets)]
+        if len(binds) == 1:
+            return _const_str(tree, binds[0])
+    return None
+
+
+def _compiled(tree, expr):
+    """pattern of `re.compile(P)` given directly or through a module-level name bound once"""
+    if (isinstance(expr, ast.Call) and isinstance(expr.func, ast.Attribute) and expr.func.attr == "compile"
+            and isinstance(expr.func.value, ast.Name) and expr.func.value.id == "re"
+            and len(expr.args) == 1 and not expr.keywords):          # flags would change the meaning: not accepted
+        return _const_str(tree, expr.args[0])
+    if isinstance(expr, ast.Name):
+        binds = [n.value for n in tree.body if isinstance(n, ast.Assign)
+                 and any(isinstance(t, ast.Name) and t.id == expr.id for t in n.targets)]
+        if len(binds) == 1:
+            return _compiled(tree, binds[0])
+    return None
+
+
+def _regex_from_source(src: str):
+    """(method, pattern) of the one regular-expression test that selects the level files in load_permissions.
+    Read semantically: `re.match(P, x)`, `re.compile(P).match(x)` and `NAME.match(x)` with NAME a module-level
+    `re.compile(P)` are the same test; P may be a literal or a module-level string constant; the test may sit in
+    load_permissions itself or in a same-module helper it calls (one level). `fullmatch` is accepted as such (and
+    applied as such). Flags, `search`, several different patterns, or no pattern at all are not recognised."""
     tree = ast.parse(src)
-    for fn in ast.walk(tree):
-        if isinstance(fn, ast.FunctionDef) and fn.name == "load_permissions":
-            for n in ast.walk(fn):
-                if (isinstance(n, ast.Call) and isinstance(n.func, ast.Attribute) and n.func.attr == "match"
-                        and isinstance(n.func.value, ast.Name) and n.func.value.id == "re"
-                        and n.args and isinstance(n.args[0], ast.Constant) and isinstance(n.args[0].value, str)):
-                    return n.args[0].value
-    raise ValueError("load_permissions: re.match(<literal>, x) not found")
+    fn = _module_funcs(tree).get("load_permissions")
+    if fn is None:
+        raise ValueError("load_permissions not found")
+    found = set()
+    for f in _closure(tree, fn):
+        for n in ast.walk(f):
+            if not (isinstance(n, ast.Call) and isinstance(n.func, ast.Attribute) and n.func.attr in ("match", "fullmatch", "search")):
+                continue
+            base = n.func.value
+            if isinstance(base, ast.Name) and base.id == "re":
+                if len(n.args) != 2 or n.keywords:
+                    raise ValueError("re.%s with flags/keywords: not recognised" % n.func.attr)
+                pat = _const_str(tree, n.args[0])
+            else:
+                if len(n.args) != 1 or n.keywords:
+                    continue                       # some other object's .match(...)
+                pat = _compiled(tree, base)
+                if pat is None:
+                    continue
+            if pat is None:
+                raise ValueError("level-file pattern is not a constant: " + ast.unparse(n))
+            if n.func.attr == "search":
+                raise ValueError("level files selected with re.search: not recognised")
+            found.add((n.func.attr, pat))
+    if len(found) != 1:
+        raise ValueError(f"load_permissions: expected exactly one constant level-file regex test, found {sorted(found)}")
+    return next(iter(found))
 
 
 def _default_api(src: str) -> int:
@@ -71,7 +138,8 @@ def _default_reads(src: str):
     if not conf_ok:
         raise ValueError("module level `CONF = Configuration()` not found")
     reads, subscripted = [], set()
-    for n in ast.walk(fn):
+    scope = [m for f in _closure(tree, fn) for m in ast.walk(f)]       # the function and the helpers it calls
+    for n in scope:
         if isinstance(n, ast.Subscript) and isinstance(n.slice, ast.Constant) and n.slice.value == "DEFAULT_API":
             if not isinstance(n.value, ast.Name):
                 raise ValueError("DEFAULT_API read through a non-name object: " + ast.unparse(n.value))
@@ -84,7 +152,7 @@ def _default_reads(src: str):
             reads.append((n.lineno, n.col_offset, (base.id if isinstance(base, ast.Name) else ast.unparse(base)) + "." + n.func.attr))
             if isinstance(base, ast.Name):
                 subscripted.add(id(base))
-    for n in ast.walk(fn):
+    for n in scope:
         if isinstance(n, ast.Name) and n.id in ("default_conf", "Configuration") and id(n) not in subscripted:
             raise ValueError(f"load_api_specific_resource_module uses {n.id} in an unrecognised way (line {n.lineno})")
     if not reads:
@@ -95,11 +163,11 @@ def _default_reads(src: str):
 def facts(repo: str) -> dict:
     root = os.path.join(repo, REL)
     src = open(os.path.join(root, "__init__.py")).read()
-    rx = _regex_from_source(src)
+    method, rx = _regex_from_source(src)
     pdir = os.path.join(root, "aosp_permissions")
     names = sorted(os.listdir(pdir))
     # exactly what the code computes (order is irrelevant to max/min/filter; sorted for stable text)
-    levels = sorted(int(x[:-5].split("_")[1]) for x in names if re.match(rx, x))
+    levels = sorted(int(x[:-5].split("_")[1]) for x in names if getattr(re, method)(rx, x))
     cand = set(levels) | set(range(0, 64))
     files = sorted(n for n in cand if os.path.isfile(os.path.join(pdir, "permissions_{}.json".format(n))))
     perm_empty = []
